@@ -1,7 +1,7 @@
 (* C04 / C08 - the text readers of the uuid and date-time leaves (Marshal/Typed.v: parse_uuid, parse_datetime):
    which spellings are accepted, and that the written form is canonical and reads back to itself. *)
 From Coq Require Import List ZArith Strings.Byte Bool Lia.
-From Verif Require Import Base.Wire Json.Utf8 Json.JsonProofs Json.LexProofs Num.Codec Num.CodecProofs Defs.DefTypes Rates.Date
+From Verif Require Import Base.Wire Json.Utf8 Json.Number Json.JsonProofs Json.LexProofs Num.Codec Num.CodecProofs Defs.DefTypes Rates.Date Rates.DateProofs
   Fix.DateText Fix.DateTextProofs Marshal.Typed.
 Import ListNotations.
 Open Scope list_scope.
@@ -243,4 +243,174 @@ Proof.
   split; [|split; [right; left; reflexivity|]].
   - cbn [forallb]. repeat match goal with X : is_hex _ = true |- _ => rewrite X; clear X end. reflexivity.
   - cbn [map]. repeat match goal with X : lower_hex _ = _ |- _ => rewrite X; clear X end. reflexivity.
+Qed.
+
+(* ------------------------------------------------------------------------------------------ *)
+(* date-time                                                                                   *)
+(* ------------------------------------------------------------------------------------------ *)
+Ltac Zify.zify_post_hook ::= Z.div_mod_to_equations.
+
+Lemma pad2_digits n : 0 <= n < 100 ->
+  exists a b, pad2 n = [a; b] /\ is_digit a = true /\ is_digit b = true /\ dv a * 10 + dv b = n.
+Proof.
+  intros H. unfold pad2. assert (n <? 100 = true) as -> by lia.
+  destruct (dv_ch (n / 10)) as [A1 A2]; [lia|]. destruct (dv_ch (n mod 10)) as [B1 B2]; [lia|].
+  eexists _, _. split; [reflexivity|]. rewrite A1, A2, B1, B2. repeat split; lia.
+Qed.
+
+Lemma two_digits_some a b : is_digit a = true -> is_digit b = true -> two_digits a b = Some (dv a * 10 + dv b).
+Proof. intros A B. unfold two_digits. now rewrite A, B. Qed.
+
+Lemma two_digits_pad2 a b n : two_digits a b = Some n ->
+  0 <= n < 100 /\ pad2 n = [a; b] /\ is_digit a = true /\ is_digit b = true /\ n = dv a * 10 + dv b.
+Proof.
+  unfold two_digits. destruct (is_digit a) eqn:A; [|discriminate]. destruct (is_digit b) eqn:B; [|discriminate].
+  cbn [andb]. intros H. inversion H; subst n; clear H.
+  destruct (ch_dv a A) as [Ea Ra]. destruct (ch_dv b B) as [Eb Rb].
+  split; [lia|]. split; [|auto].
+  unfold pad2. assert (dv a * 10 + dv b <? 100 = true) as -> by lia.
+  replace ((dv a * 10 + dv b) / 10) with (dv a) by lia. replace ((dv a * 10 + dv b) mod 10) with (dv b) by lia.
+  now rewrite Ea, Eb.
+Qed.
+
+Lemma colon_not_digit : is_digit x3a = false.
+Proof. reflexivity. Qed.
+
+(* a text put together from a real date and a real time of day is canonical and reads back to itself *)
+Lemma datetime_built y1 y2 y3 y4 d1 m1 m2 d2 a1 a2 d h n sec :
+  parse_date [y1; y2; y3; y4; d1; m1; m2; d2; a1; a2] = Some d -> date_valid d = true ->
+  0 <= h < 24 -> 0 <= n < 60 -> 0 <= sec < 60 ->
+  let c := [y1; y2; y3; y4; d1; m1; m2; d2; a1; a2] ++ x54 :: pad2 h ++ x3a :: pad2 n ++ x3a :: pad2 sec in
+  canonical_datetime c = true /\ parse_datetime c = Some c.
+Proof.
+  intros P V Hh Hn Hs.
+  destruct (pad2_digits h) as (h1 & h2 & Ph & Dh1 & Dh2 & Eh); [lia|].
+  destruct (pad2_digits n) as (n1 & n2 & Pn & Dn1 & Dn2 & En); [lia|].
+  destruct (pad2_digits sec) as (s1 & s2 & Ps & Ds1 & Ds2 & Es); [lia|].
+  rewrite Ph, Pn, Ps. cbn [app]. cbv zeta.
+  assert (Lh : (h <? 24) = true) by lia. assert (Ln : (n <? 60) = true) by lia. assert (Ls : (sec <? 60) = true) by lia.
+  destruct (print_parse_date _ _ P) as [Q _].
+  split.
+  - unfold canonical_datetime. apply orb_true_iff. right.
+    rewrite P, (two_digits_some _ _ Dh1 Dh2), (two_digits_some _ _ Dn1 Dn2), (two_digits_some _ _ Ds1 Ds2).
+    rewrite Eh, En, Es, V, Lh, Ln, Ls. reflexivity.
+  - unfold parse_datetime.
+    match goal with |- (if ?c then _ else _) = _ => destruct c end; [reflexivity|].
+    rewrite P, V. cbn [andb orb Byte.eqb]. change (Byte.eqb x54 x54) with true. cbn [orb].
+    unfold parse_clock. rewrite Dh1, Dh2. unfold clock_rest.
+    rewrite (two_digits_some _ _ Dn1 Dn2), (two_digits_some _ _ Ds1 Ds2), Eh, En, Es, Lh, Ln, Ls.
+    change (Byte.eqb x3a x3a) with true. cbn [andb frac_zero].
+    rewrite Ph, Pn, Ps, Q. cbn [app]. reflexivity.
+Qed.
+
+Lemma clock_rest_spec h r k : clock_rest h r = Some k <->
+  exists n sec f, 0 <= n < 60 /\ 0 <= sec < 60 /\ h < 24 /\ frac_zero f = true /\
+    r = x3a :: pad2 n ++ x3a :: pad2 sec ++ f /\ k = pad2 h ++ x3a :: pad2 n ++ x3a :: pad2 sec.
+Proof.
+  split.
+  - unfold clock_rest. destruct r as [|c1 [|n1 [|n2 [|c2 [|s1 [|s2 f]]]]]]; try discriminate.
+    destruct (two_digits n1 n2) as [n|] eqn:En; [|discriminate].
+    destruct (two_digits s1 s2) as [sec|] eqn:Es; [|discriminate].
+    destruct (Byte.eqb c1 x3a && Byte.eqb c2 x3a && (h <? 24) && (n <? 60) && (sec <? 60) && frac_zero f) eqn:C; [|discriminate].
+    intros H. inversion H; subst k; clear H.
+    repeat (apply andb_prop in C; let X := fresh "X" in destruct C as [C X]).
+    apply byte_eqb_eq in C, X3. subst c1 c2.
+    destruct (two_digits_pad2 _ _ _ En) as (Rn & Pn & _). destruct (two_digits_pad2 _ _ _ Es) as (Rs & Ps & _).
+    exists n, sec, f. rewrite Pn, Ps. cbn [app]. repeat split; auto; lia.
+  - intros (n & sec & f & Hn & Hs & Hh & F & -> & ->).
+    destruct (pad2_digits n) as (n1 & n2 & Pn & Dn1 & Dn2 & En); [lia|].
+    destruct (pad2_digits sec) as (s1 & s2 & Ps & Ds1 & Ds2 & Es); [lia|].
+    rewrite Pn, Ps. cbn [app]. unfold clock_rest.
+    rewrite (two_digits_some _ _ Dn1 Dn2), (two_digits_some _ _ Ds1 Ds2), En, Es, F.
+    change (Byte.eqb x3a x3a) with true.
+    assert ((h <? 24) = true) as -> by lia. assert ((n <? 60) = true) as -> by lia. assert ((sec <? 60) = true) as -> by lia.
+    cbn [andb]. rewrite Pn, Ps. reflexivity.
+Qed.
+
+Lemma parse_clock_spec r k : parse_clock r = Some k <->
+  exists h hh n sec f, 0 <= h < 24 /\ 0 <= n < 60 /\ 0 <= sec < 60 /\
+    (hh = pad2 h \/ (h < 10 /\ hh = [ch (48 + h)])) /\ frac_zero f = true /\
+    r = hh ++ x3a :: pad2 n ++ x3a :: pad2 sec ++ f /\ k = pad2 h ++ x3a :: pad2 n ++ x3a :: pad2 sec.
+Proof.
+  split.
+  - unfold parse_clock. destruct r as [|h1 [|h2 r2]]; try discriminate.
+    destruct (is_digit h1) eqn:D1; [|discriminate]. destruct (ch_dv _ D1) as [E1 R1].
+    destruct (is_digit h2) eqn:D2.
+    + destruct (ch_dv _ D2) as [E2 R2]. intros H. apply clock_rest_spec in H.
+      destruct H as (n & sec & f & Hn & Hs & Hh & F & -> & ->).
+      exists (dv h1 * 10 + dv h2), [h1; h2], n, sec, f.
+      destruct (two_digits_pad2 h1 h2 _ (two_digits_some _ _ D1 D2)) as (_ & P & _).
+      repeat split; auto; lia.
+    + intros H. apply clock_rest_spec in H. destruct H as (n & sec & f & Hn & Hs & Hh & F & Er & ->).
+      exists (dv h1), [h1], n, sec, f. rewrite Er, E1. repeat split; auto; try lia. right. split; [lia|reflexivity].
+  - intros (h & hh & n & sec & f & Hh & Hn & Hs & Hhh & F & -> & ->).
+    assert (C : clock_rest h (x3a :: pad2 n ++ x3a :: pad2 sec ++ f) = Some (pad2 h ++ x3a :: pad2 n ++ x3a :: pad2 sec)).
+    { apply clock_rest_spec. exists n, sec, f. repeat split; auto; lia. }
+    destruct Hhh as [->|[H10 ->]].
+    + destruct (pad2_digits h) as (h1 & h2 & Ph & D1 & D2 & Eh); [lia|].
+      rewrite Ph in *. cbn [app]. unfold parse_clock. rewrite D1, D2, Eh. exact C.
+    + destruct (dv_ch h) as [D E]; [lia|]. cbn [app]. unfold parse_clock. rewrite D, colon_not_digit, E. exact C.
+Qed.
+
+(* the accepted spellings of a date-time, and the text that is written for each *)
+Theorem parse_datetime_spec s c : parse_datetime s = Some c <->
+  (s = text_zero_datetime /\ c = text_zero_datetime) \/
+  exists d t h hh n sec f,
+    date_valid d = true /\ 0 <= d_year d <= 9999 /\ 0 <= h < 24 /\ 0 <= n < 60 /\ 0 <= sec < 60 /\
+    (t = x54 \/ t = x74) /\ (hh = pad2 h \/ (h < 10 /\ hh = [ch (48 + h)])) /\ frac_zero f = true /\
+    s = print_date d ++ t :: hh ++ x3a :: pad2 n ++ x3a :: pad2 sec ++ f /\
+    c = print_date d ++ x54 :: pad2 h ++ x3a :: pad2 n ++ x3a :: pad2 sec.
+Proof.
+  split.
+  - unfold parse_datetime. destruct (eqb_bytes s text_zero_datetime) eqn:Z.
+    { apply eqb_bytes_eq in Z. intros H. inversion H; subst. auto. }
+    destruct s as [|y1 [|y2 [|y3 [|y4 [|d1 [|m1 [|m2 [|d2 [|a1 [|a2 [|t r]]]]]]]]]]]; try discriminate.
+    destruct (parse_date [y1; y2; y3; y4; d1; m1; m2; d2; a1; a2]) as [d|] eqn:P; [|discriminate].
+    destruct (date_valid d && (Byte.eqb t x54 || Byte.eqb t x74)) eqn:C; [|discriminate].
+    destruct (parse_clock r) as [k|] eqn:K; [|discriminate]. intros H. inversion H; subst c; clear H. right.
+    apply andb_prop in C. destruct C as [V T].
+    destruct (print_parse_date _ _ P) as [Q S].
+    apply parse_clock_spec in K. destruct K as (h & hh & n & sec & f & Hh & Hn & Hs & Hhh & F & -> & ->).
+    exists d, t, h, hh, n, sec, f. rewrite Q. cbn [app].
+    assert (Y : 0 <= d_year d <= 9999).
+    { unfold date_storable in S. apply orb_prop in S. destruct S as [S|S].
+      - apply date_eqb_eq in S. subst d. discriminate V.
+      - apply andb_prop in S. destruct S as [S _]. apply andb_prop in S. lia. }
+    repeat split; auto; try lia.
+    apply orb_prop in T. destruct T as [T|T]; apply byte_eqb_eq in T; auto.
+  - intros [[-> ->]|(d & t & h & hh & n & sec & f & V & Y & Hh & Hn & Hs & Ht & Hhh & F & -> & ->)]; [reflexivity|].
+    assert (S : date_storable d = true).
+    { unfold date_storable. rewrite V. apply orb_true_iff. right. apply andb_true_intro. split; [|reflexivity].
+      apply andb_true_intro. split; lia. }
+    pose proof (parse_print_date d S) as P.
+    assert (K : parse_clock (hh ++ x3a :: pad2 n ++ x3a :: pad2 sec ++ f) = Some (pad2 h ++ x3a :: pad2 n ++ x3a :: pad2 sec)).
+    { apply parse_clock_spec. exists h, hh, n, sec, f. repeat split; auto; lia. }
+    assert (X : exists y1 y2 y3 y4 d1 m1 m2 d2 a1 a2, print_date d = [y1; y2; y3; y4; d1; m1; m2; d2; a1; a2]).
+    { unfold parse_date in P. destruct (print_date d) as [|y1 [|y2 [|y3 [|y4 [|d1 [|m1 [|m2 [|d2 [|a1 [|a2 [|x r]]]]]]]]]]]; try discriminate.
+      repeat eexists. }
+    destruct X as (y1 & y2 & y3 & y4 & d1 & m1 & m2 & d2 & a1 & a2 & Q). rewrite Q in *. cbn [app].
+    unfold parse_datetime.
+    match goal with |- (if ?c then _ else _) = _ => destruct c eqn:Z end.
+    { (* a spelling of a real date is not the zero text *)
+      apply eqb_bytes_eq in Z. exfalso. unfold text_zero_datetime in Z. cbn in Z.
+      inversion Z; subst. rewrite <- Q in P. clear - P V Q.
+      assert (E : parse_date (print_date d) = Some zero_date) by (rewrite Q; reflexivity).
+      rewrite P in E. inversion E. subst d. discriminate V. }
+    rewrite P, V, K, Q. destruct Ht as [->| ->]; reflexivity.
+Qed.
+
+(* what is written is the canonical form, and reads back to itself *)
+Theorem parse_datetime_canonical s c : parse_datetime s = Some c -> canonical_datetime c = true /\ parse_datetime c = Some c.
+Proof.
+  intros H. apply parse_datetime_spec in H.
+  destruct H as [[_ ->]|(d & t & h & hh & n & sec & f & V & Y & Hh & Hn & Hs & _ & _ & _ & _ & ->)]; [split; reflexivity|].
+  assert (S : date_storable d = true).
+  { unfold date_storable. rewrite V. apply orb_true_iff. right. apply andb_true_intro. split; [|reflexivity].
+    apply andb_true_intro. split; lia. }
+  pose proof (parse_print_date d S) as P.
+  assert (X : exists y1 y2 y3 y4 d1 m1 m2 d2 a1 a2, print_date d = [y1; y2; y3; y4; d1; m1; m2; d2; a1; a2]).
+  { unfold parse_date in P. destruct (print_date d) as [|y1 [|y2 [|y3 [|y4 [|d1 [|m1 [|m2 [|d2 [|a1 [|a2 [|x r]]]]]]]]]]]; try discriminate.
+    repeat eexists. }
+  destruct X as (y1 & y2 & y3 & y4 & d1 & m1 & m2 & d2 & a1 & a2 & Q). rewrite Q in *.
+  apply (datetime_built _ _ _ _ _ _ _ _ _ _ d h n sec P V Hh Hn Hs).
 Qed.
